@@ -3,6 +3,7 @@
 From Coq Require Import Strings.Byte.
 From Coq Require Import List NArith Sorted.
 From Goit Require Import Bytes Tree Index IndexFacts.
+From Goit Require Import Obj World Repo Inv SnapshotFacts.
 Import ListNotations.
 
 (* T1: the file codec is lossless for every list of well-formed entries *)
@@ -60,6 +61,19 @@ Proof. reflexivity. Qed.
 Example C06_d_old_not_under_d : under_dir [x64] [x64; x2d; x6f; x6c; x64] = false.
 Proof. reflexivity. Qed.
 
+
+(* ---------- Part 2: every history ---------- *)
+(* After EVERY history of commands (accepted or refused) and user edits that
+   write valid paths — add, rm, restore, reset, commit in any order — the
+   staging area is strictly ascending in byte order, duplicate-free, and holds
+   only valid entries (20-byte id, well-formed path).  Guards: no flagged SHA-1
+   collision, no object of 8 EiB or more. *)
+Theorem C06_staging_area_canonical_on_every_history : forall w,
+  Reachable w -> w_coll w = false -> SmallStore (w_objs w) ->
+  StronglySorted (fun a b => blt (e_path a) (e_path b) = true) (idx_of w) /\
+  NoDup (paths (idx_of w)) /\ Forall TreeFacts.valid_entry (idx_of w).
+Proof. exact staging_area_sorted. Qed.
+
 Print Assumptions C06_index_roundtrip.
 Print Assumptions C06_decode_count.
 Print Assumptions C06_update_canonical.
@@ -68,3 +82,4 @@ Print Assumptions C06_get_entry_correct.
 Print Assumptions C06_is_dir_iff.
 Print Assumptions C06_under_dir_spec.
 Print Assumptions C06_entries_by_dir_exact.
+Print Assumptions C06_staging_area_canonical_on_every_history.
